@@ -331,6 +331,8 @@ func c20(w *core.World, r *core.Report) {
 		r.Check(bad == "" && n >= 2, "Replay/memo-lifetime", pos, "%s", bad)
 	}
 
+	r.Rule("R20.9", "a RESTORE error is classified as 'key exists' only by the published BUSYKEY texts", 2)
+	ruleBusyKeyTexts(w, r)
 	r.Rule("R20.8", "bidirectional replay: a BUSYKEY reply to RESTORE is tolerated only under the ignore policy", 1)
 	if g := fn(w, r, "(*syncer.RedisOutput).validateBisyncRdbExecReplies"); g != nil {
 		// the loop over the EXEC replies: the one that asks whether a reply is an error reply
@@ -537,4 +539,98 @@ func ruleBisyncRdbPolicy(w *core.World, r *core.Report) {
 		}
 	}
 	r.Check(del, "buildBisyncRdbReplayUnit/replace-del", f.Pos(), "under replace the expanded replay must prepend DEL for the first chunk only")
+}
+
+// ---------------------------------------------------------------- key-exists classification of a RESTORE error (R20.9, shared with C04 as R04.10)
+
+// ruleBusyKeyTexts: a RESTORE error means "the key exists" only when it is
+// Redis' BUSYKEY reply. Anything wider (a lower-cased substring, "busy" alone)
+// also matches "BUSY Redis is busy running a script", LOADING-style errors
+// and the like: under the ignore policy the entry is then skipped and the
+// snapshot recorded as replayed.
+func ruleBusyKeyTexts(w *core.World, r *core.Report) {
+	published := map[string]bool{"Target key name is busy": true, "BUSYKEY Target key name already exists": true}
+	n := 0
+	for _, name := range []string{replayFn, "syncer.isRestoreBusyKeyError"} {
+		f := fn(w, r, name)
+		if f == nil {
+			continue
+		}
+		bad := ""
+		var pos token.Pos = f.Pos()
+		k := 0
+		for _, s := range core.Sites(f, false) {
+			switch s.Name {
+			case "strings.Contains", "strings.HasPrefix", "strings.EqualFold", "strings.Index":
+			default:
+				continue
+			}
+			a := s.Args()
+			if len(a) != 2 {
+				continue
+			}
+			txt, isC := core.ConstString(a[1])
+			if !isC {
+				// a loop over a fixed list of texts: every element must be published
+				okList := false
+				switch e := core.Unwrap(a[1]).(type) {
+				case *ssa.UnOp:
+					if ia, isIA := e.X.(*ssa.IndexAddr); isIA {
+						okList = constStringsOf(w, ia.X, published)
+					}
+				case *ssa.Index:
+					okList = constStringsOf(w, e.X, published)
+				}
+				if okList {
+					k++
+					continue
+				}
+				if fieldNameOfLoad(a[1]) != "" || s.Name != "strings.Contains" {
+					continue // not an error-text test
+				}
+				bad, pos = "a RESTORE error is matched against a text that is not a constant", s.Pos()
+				continue
+			}
+			if !strings.Contains(strings.ToLower(txt), "busy") {
+				continue // some other test
+			}
+			k++
+			// the error text itself, untransformed
+			direct := false
+			if c, isCall := core.Unwrap(a[0]).(*ssa.Call); isCall && c.Call.IsInvoke() && c.Call.Method.Name() == "Error" {
+				direct = true
+			}
+			if !published[txt] || !direct || s.Name != "strings.Contains" {
+				bad, pos = "a RESTORE error is taken for 'key exists' by something wider than the two published BUSYKEY texts (text \""+txt+"\", untransformed error text: "+boolStr(direct)+")", s.Pos()
+			}
+		}
+		n += k
+		r.Check(bad == "" && k >= 1, shortName(name)+"/busykey-texts", pos, "%s", bad)
+	}
+	if n == 0 {
+		r.Fail("busykey-texts", token.NoPos, "no BUSYKEY recognition found")
+	}
+}
+
+// constStringsOf: v is (a load of) a package-level array/slice of string constants, all of them allowed.
+func constStringsOf(w *core.World, v ssa.Value, allowed map[string]bool) bool {
+	g, ok := v.(*ssa.Global)
+	if !ok {
+		if ld, isLd := v.(*ssa.UnOp); isLd {
+			g, ok = ld.X.(*ssa.Global)
+		}
+	}
+	if !ok || g.Pkg == nil {
+		return false
+	}
+	vals, _, found := astCompositeStrings(w, core.Short(g.Pkg.Pkg.Path()), g.Name(), false)
+	if !found || len(vals) == 0 {
+		return false
+	}
+	for _, s := range vals {
+		if !allowed[s] {
+			return false
+		}
+	}
+	return true
 }
